@@ -9,6 +9,12 @@ OVV == {<<"OU", 1000000, 2000, 990000, 1500>>,
         <<"OV", 150000000, 300000, 151000000, 200000>>,
         <<"OV", 90000000, 0, 90000000, 0>>,
         <<"OD", 104000000, 0, 100000000, 0>>}
+\* the Switchboard instance: value / standard deviation at 10^-18
+SVV == {<<"OU", "1000000000000000000", "2000000000000000">>,
+        <<"OU", "700000000000000001", "0">>,
+        <<"OU", "1000000000000000000", "27000000000000000">>,     \* 2.7 % x 1.96: capped at 5 % of the adjusted value
+        <<"OV", "90000000000000000000", "0">>}
+OVD == {<<"OD", 104000000, 0, 100000000, 0>>}
 BPV == {<<"A1", "BD">>, <<"A2", "BD">>, <<"A3", "BD">>}
 KBorV == {300000000, 0}
 SBorV == {250, 0}
